@@ -104,15 +104,19 @@ def judgeTooMany (parts : List Part) : String :=
 (`C01_implicit_start`). The harness reports offsets relative to a clock reading `before` taken just before that call and
 `slack` = the width of the bracket [before, after] around the call. The start is `s = fin − (expected length)` (an
 exhausted profile reports start + duration); it must lie inside the bracket; everything else is judged relative to it. -/
-def rebase (parts : List Part) (slack : Int) (o : Obs) : Except String Obs :=
+def rebase (parts : List Part) (slack : Int) (sest : Option Int) (o : Obs) : Except String Obs :=
   let s := o.fin - sumI (parts.map Part.dur)
-  if s < 0 || s > slack then
+  -- step profiles: the harness counted the tokens per level slot from the start `sest` it read off the finish time
+  -- (fin mod level duration). That is the start unless the start lies a whole level duration or more after the clock
+  -- reading — possible only when the bracket is that wide (1 ms levels on a stalled machine): nothing can be said then.
+  if 0 ≤ s && s ≤ slack && sest.isSome && sest != some s then .error "skip:inconclusive-start"
+  else if s < 0 || s > slack then
     .error s!"fail:start:never Start()ed: finish time minus the profile's length = {s} ns after the clock reading taken before the first Next(), which returned {slack} ns after it"
   else
     .ok { o with fin := o.fin - s, tmin := if o.n > 0 then o.tmin - s else o.tmin,
                  tmax := if o.n > 0 then o.tmax - s else o.tmax, toks := o.toks.map fun (k, t) => (k, t - s) }
 
-def handle : Handler := fun input impl =>
+def handle0 : Handler := fun input impl =>
   match parse (parseKV input) with
   | .bad => ("-", "fail:driver:unparsable input")
   | .outside why =>
@@ -131,10 +135,19 @@ def handle : Handler := fun input impl =>
       | some obs =>
           match getI? (parseKV impl) "slack" with
           | some slack =>
-              match rebase parts slack obs with
+              match rebase parts slack (getI? (parseKV impl) "sest") obs with
               | .ok obs' => ("-", judge parts obs')
               | .error e => ("-", e)
           | none => ("-", judge parts obs)
       | none => ("-", s!"fail:crash:unparsable observation {impl.take 80}")
+
+/-- `warm=1` cases (another profile of the same kind was decoded earlier in the same process) report their failures
+under a key of their own: such an input reproduces on its own, whereas a profile that merely ran next to it in the same
+driver process may not. The original key is kept in the detail. -/
+def handle : Handler := fun input impl =>
+  let (m, v) := handle0 input impl
+  if v.startsWith "fail:" && (lookup (parseKV input) "warm") == some "1" then
+    (m, "fail:after-another-profile:" ++ (v.drop 5).toString)
+  else (m, v)
 
 end Pandora.Drv.C01
